@@ -1272,6 +1272,48 @@ fn main() {
                 };
                 format!("{{\"variant\":{}}}", variant)
             }
+            // nnt_map <uuid|dec32|symbol|timestamp>: a one-entry map whose KEY is that restricted type, with an i64, a
+            //   string and a binary as the value: to_vec -> from_slice gives the map back, and serialized_size is the
+            //   encoded length. nnt_value <..>: the same maps through the value tree: to_value(m) == from_slice::<Value>(to_vec(m))
+            "nnt_map" | "nnt_value" => {
+                use serde_amqp::primitives::{Dec32, OrderedMap, Symbol, Timestamp, Uuid};
+                use serde_amqp::Value;
+                fn one<K, V>(k: K, v: V, tree: bool) -> bool
+                where
+                    K: serde::Serialize + serde::de::DeserializeOwned + std::hash::Hash + Eq + std::fmt::Debug + Clone,
+                    V: serde::Serialize + serde::de::DeserializeOwned + PartialEq + std::fmt::Debug + Clone,
+                {
+                    let mut m: OrderedMap<K, V> = OrderedMap::new();
+                    m.insert(k, v);
+                    let bytes = match serde_amqp::to_vec(&m) {
+                        Ok(b) => b,
+                        Err(_) => return false,
+                    };
+                    if tree {
+                        let via_tree = serde_amqp::to_value(&m);
+                        let via_bytes = serde_amqp::from_slice::<Value>(&bytes);
+                        matches!((via_tree, via_bytes), (Ok(a), Ok(b)) if a == b)
+                    } else {
+                        let size_ok = serde_amqp::serialized_size(&m).map(|n| n == bytes.len()).unwrap_or(false);
+                        let back = serde_amqp::from_slice::<OrderedMap<K, V>>(&bytes);
+                        size_ok && matches!(back, Ok(b) if b == m)
+                    }
+                }
+                fn three<K>(k: K, tree: bool) -> bool
+                where
+                    K: serde::Serialize + serde::de::DeserializeOwned + std::hash::Hash + Eq + std::fmt::Debug + Clone,
+                {
+                    one(k.clone(), 5i64, tree) && one(k.clone(), "txt".to_string(), tree) && one(k, serde_bytes::ByteBuf::from(vec![1u8, 2, 3]), tree)
+                }
+                let tree = toks[0] == "nnt_value";
+                let agree = match toks.get(1).copied().unwrap_or("") {
+                    "uuid" => three(Uuid::from([7u8; 16]), tree),
+                    "dec32" => three(Dec32::from([1u8, 2, 3, 4]), tree),
+                    "symbol" => three(Symbol::from("key"), tree),
+                    _ => three(Timestamp::from_milliseconds(12), tree),
+                };
+                format!("{{\"agree\":{}}}", agree)
+            }
             // xfer <scenario> <split>: transfer frames through a real ReceiverInner::on_incoming_transfer.
             //   The message is an amqp-value section holding a 12-byte binary, cut after <split> payload bytes.
             //   scenario 0: two frames (more, then final; the second omits id and tag)            -> one delivery
@@ -1757,6 +1799,239 @@ fn main() {
                             let (summary, third) = client.clone().unwrap_or_else(|e| (e, false));
                             let dc_out = if mode == 1 { 2 } else { dc.unwrap_or(-1) };
                             format!("{{\"client\":\"{}\",\"flow_delivery_count\":{},\"third_accepted\":{},\"log\":{}}}", summary, dc_out, third, sp::json_list(&log))
+                        }
+                        // stop_reason <close_err|close|end_err|end>: with a session and a sender attached, the peer closes the
+                        //   connection (with / without an error) or ends the session (with / without an error). A pre-settled
+                        //   send on the link must then fail with SessionStopped(<why>), carrying the peer's error condition when
+                        //   the peer supplied one, and the connection / session handle must report the same cause.
+                        "stop_reason" => {
+                            use fe2o3_amqp::connection::ConnectionStopReason as CSR;
+                            use fe2o3_amqp::link::{LinkStateError, SendError, SessionStopReason as SSR};
+                            use fe2o3_amqp_types::performatives::{Close, End};
+                            let kind = toks.get(2).copied().unwrap_or("close_err").to_string();
+                            let kind2 = kind.clone();
+                            let cfg = sp::PeerCfg::default();
+                            let peer = tokio::spawn(sp::run(peer_io, sp::PeerCfg::default(), move |f: &Frame, _log: &[String]| {
+                                let mut act = sp::Act::default();
+                                if let FrameBody::Attach(_) = &f.body {
+                                    act.replies = sp::default_answers(f, &cfg).0;
+                                    let error = if kind2.ends_with("_err") { Some(defs::Error::new(defs::AmqpError::InternalError, Some("peer says no".to_string()), None)) } else { None };
+                                    if kind2.starts_with("close") {
+                                        act.replies.push(Frame::new(0u16, FrameBody::Close(Close { error })));
+                                    } else {
+                                        act.replies.push(Frame::new(f.channel, FrameBody::End(End { error })));
+                                    }
+                                    act.handled = true;
+                                }
+                                // our own close/end answers are swallowed: the peer already said its piece
+                                if matches!(&f.body, FrameBody::Close(_)) {
+                                    act.stop = true;
+                                }
+                                if matches!(&f.body, FrameBody::End(_)) && kind2.starts_with("end") {
+                                    act.handled = true;
+                                }
+                                act
+                            }));
+                            let client = tokio::time::timeout(Duration::from_secs(8), async {
+                                let mut conn = fe2o3_amqp::Connection::builder().container_id("client").open_with_stream(client_io).await.map_err(|_| "open_failed".to_string())?;
+                                let mut session = fe2o3_amqp::Session::begin(&mut conn).await.map_err(|_| "begin_failed".to_string())?;
+                                let mut sender = match fe2o3_amqp::Sender::attach(&mut session, "link-1", "q1").await {
+                                    Ok(s) => s,
+                                    Err(e) => return Err(format!("attach_failed:{:?}", e).chars().take(80).collect()),
+                                };
+                                let deadline = std::time::Instant::now() + Duration::from_secs(3);
+                                let link = loop {
+                                    let r = sender.send(fe2o3_amqp::Sendable::builder().message("hello").settled(true).build()).await;
+                                    match r {
+                                        Ok(_) if std::time::Instant::now() < deadline => tokio::time::sleep(Duration::from_millis(10)).await,
+                                        Ok(_) => break "send_keeps_succeeding".to_string(),
+                                        Err(SendError::LinkStateError(LinkStateError::SessionStopped(reason))) => {
+                                            break match reason {
+                                                SSR::ConnectionStopped(CSR::RemoteClosedWithError(e)) => format!("conn_remote_closed_with_error:{}", matches!(e.condition, defs::ErrorCondition::AmqpError(defs::AmqpError::InternalError))),
+                                                SSR::ConnectionStopped(CSR::RemoteClosed) => "conn_remote_closed".to_string(),
+                                                SSR::ConnectionStopped(_) => "conn_other".to_string(),
+                                                SSR::RemoteEndedWithError(e) => format!("session_remote_ended_with_error:{}", matches!(e.condition, defs::ErrorCondition::AmqpError(defs::AmqpError::InternalError))),
+                                                SSR::RemoteEnded => "session_remote_ended".to_string(),
+                                                _ => "session_other".to_string(),
+                                            }
+                                        }
+                                        Err(_) => break "other_send_error".to_string(),
+                                    }
+                                };
+                                let sess = match tokio::time::timeout(Duration::from_secs(2), session.on_end()).await {
+                                    Err(_) => "session_still_running".to_string(),
+                                    Ok(Ok(())) => "session_ok".to_string(),
+                                    Ok(Err(fe2o3_amqp::session::Error::RemoteEndedWithError(_))) => "session_remote_ended_with_error".to_string(),
+                                    Ok(Err(fe2o3_amqp::session::Error::RemoteEnded)) => "session_remote_ended".to_string(),
+                                    Ok(Err(_)) => "session_other_error".to_string(),
+                                };
+                                let c = if kind.starts_with("close") {
+                                    match tokio::time::timeout(Duration::from_secs(2), conn.on_close()).await {
+                                        Err(_) => "conn_still_running",
+                                        Ok(Ok(())) => "conn_ok",
+                                        Ok(Err(fe2o3_amqp::connection::Error::RemoteClosedWithError(_))) => "conn_remote_closed_with_error",
+                                        Ok(Err(fe2o3_amqp::connection::Error::RemoteClosed)) => "conn_remote_closed",
+                                        Ok(Err(_)) => "conn_other_error",
+                                    }
+                                } else {
+                                    let _ = tokio::time::timeout(Duration::from_secs(1), conn.close()).await;
+                                    "conn_not_asked"
+                                };
+                                Ok::<_, String>((link, sess, c.to_string()))
+                            })
+                            .await
+                            .unwrap_or(Err("hang".to_string()));
+                            peer.abort();
+                            let (link, sess, c) = client.unwrap_or_else(|e| (e, String::new(), String::new()));
+                            let kind = toks.get(2).copied().unwrap_or("close_err");
+                            let as_expected = match kind {
+                                "close_err" => link == "conn_remote_closed_with_error:true" && c == "conn_remote_closed_with_error" && sess == "session_ok",
+                                "close" => link == "conn_remote_closed" && c == "conn_remote_closed" && sess == "session_ok",
+                                "end_err" => link == "session_remote_ended_with_error:true" && sess == "session_remote_ended_with_error",
+                                _ => link == "session_remote_ended" && sess == "session_remote_ended",
+                            };
+                            format!("{{\"link\":\"{}\",\"session\":\"{}\",\"connection\":\"{}\",\"as_expected\":{}}}", link, sess, c, as_expected)
+                        }
+                        // txn_late_post: a real controller (client) against the crate's own listener (acceptor + control-link
+                        //   acceptor), in process. (1) two posts under a transaction are seen by the listener's application only
+                        //   after the commit, in order; (2) a post under a rolled-back transaction is never seen; (3) a post that
+                        //   arrives after the discharge, still naming the finished id, is neither delivered nor accepted.
+                        "txn_late_post" => {
+                            use fe2o3_amqp::acceptor::{ConnectionAcceptor, LinkAcceptor, LinkEndpoint, SessionAcceptor};
+                            use fe2o3_amqp::transaction::{coordinator::ControlLinkAcceptor, Controller, Transaction, TransactionDischarge, TransactionPosting};
+                            use fe2o3_amqp_types::messaging::Outcome;
+                            let _ = peer_io;
+                            let (client_io, server_io) = tokio::io::duplex(64 * 1024);
+                            let (seen_tx, mut seen) = tokio::sync::mpsc::unbounded_channel::<String>();
+                            let listener = tokio::spawn(async move {
+                                let acceptor = ConnectionAcceptor::builder().container_id("listener").build();
+                                let mut connection = match acceptor.accept(server_io).await {
+                                    Ok(c) => c,
+                                    Err(_) => return,
+                                };
+                                let session_acceptor = SessionAcceptor::builder().control_link_acceptor(ControlLinkAcceptor::default()).build();
+                                let mut session = match session_acceptor.accept(&mut connection).await {
+                                    Ok(s) => s,
+                                    Err(_) => return,
+                                };
+                                let link_acceptor = LinkAcceptor::builder().build();
+                                let mut receiver = match link_acceptor.accept(&mut session).await {
+                                    Ok(LinkEndpoint::Receiver(r)) => r,
+                                    _ => return,
+                                };
+                                while let Ok(delivery) = receiver.recv::<String>().await {
+                                    let _ = seen_tx.send(delivery.body().clone());
+                                    if receiver.accept(&delivery).await.is_err() {
+                                        break;
+                                    }
+                                }
+                                drop(seen_tx);
+                                tokio::time::sleep(Duration::from_secs(2)).await;
+                                drop(receiver);
+                                drop(session);
+                                drop(connection);
+                            });
+                            async fn quiet(seen: &mut tokio::sync::mpsc::UnboundedReceiver<String>) -> bool {
+                                !matches!(tokio::time::timeout(Duration::from_millis(400), seen.recv()).await, Ok(Some(_)))
+                            }
+                            let step = Duration::from_secs(5);
+                            let res = tokio::time::timeout(Duration::from_secs(30), async {
+                                let mut connection = fe2o3_amqp::Connection::builder().container_id("client").open_with_stream(client_io).await.map_err(|_| "open_failed")?;
+                                let mut session = fe2o3_amqp::Session::begin(&mut connection).await.map_err(|_| "begin_failed")?;
+                                let controller = Controller::attach(&mut session, "controller").await.map_err(|_| "controller_failed")?;
+                                let mut sender = fe2o3_amqp::Sender::attach(&mut session, "sender", "q1").await.map_err(|_| "sender_failed")?;
+                                let txn = tokio::time::timeout(step, Transaction::declare(&controller, None)).await.map_err(|_| "declare_timeout")?.map_err(|_| "declare_failed")?;
+                                tokio::time::timeout(step, txn.post(&mut sender, "c1")).await.map_err(|_| "post_timeout")?.map_err(|_| "post_failed")?;
+                                tokio::time::timeout(step, txn.post(&mut sender, "c2")).await.map_err(|_| "post_timeout")?.map_err(|_| "post_failed")?;
+                                let before_commit_quiet = quiet(&mut seen).await;
+                                tokio::time::timeout(step, txn.commit()).await.map_err(|_| "commit_timeout")?.map_err(|_| "commit_failed")?;
+                                let first = tokio::time::timeout(step, seen.recv()).await.ok().flatten();
+                                let second = tokio::time::timeout(step, seen.recv()).await.ok().flatten();
+                                let in_order = first.as_deref() == Some("c1") && second.as_deref() == Some("c2");
+                                let mut txn = tokio::time::timeout(step, Transaction::declare(&controller, None)).await.map_err(|_| "declare_timeout")?.map_err(|_| "declare_failed")?;
+                                tokio::time::timeout(step, txn.post(&mut sender, "r1")).await.map_err(|_| "post_timeout")?.map_err(|_| "post_failed")?;
+                                tokio::time::timeout(step, txn.discharge(true)).await.map_err(|_| "rollback_timeout")?.map_err(|_| "rollback_failed")?;
+                                let rolled_back_quiet = quiet(&mut seen).await;
+                                let late = tokio::time::timeout(Duration::from_secs(3), txn.post(&mut sender, "late")).await;
+                                let late_quiet = quiet(&mut seen).await;
+                                let late_accepted = matches!(late, Ok(Ok(Outcome::Accepted(_))));
+                                drop(txn);
+                                let _ = tokio::time::timeout(Duration::from_secs(1), sender.close()).await;
+                                let _ = tokio::time::timeout(Duration::from_secs(1), controller.close()).await;
+                                let _ = tokio::time::timeout(Duration::from_secs(1), session.end()).await;
+                                let _ = tokio::time::timeout(Duration::from_secs(1), connection.close()).await;
+                                Ok::<_, &'static str>((before_commit_quiet, in_order, rolled_back_quiet, late_quiet, late_accepted))
+                            })
+                            .await
+                            .unwrap_or(Err("hang"));
+                            listener.abort();
+                            match res {
+                                Ok((bq, io, rq, lq, la)) => format!("{{\"client\":\"ok\",\"delivered_before_commit\":{},\"commit_delivered_in_order\":{},\"rolled_back_delivered\":{},\"late_delivered\":{},\"late_accepted\":{}}}", !bq, io, !rq, !lq, la),
+                                Err(e) => format!("{{\"client\":\"{}\",\"delivered_before_commit\":false,\"commit_delivered_in_order\":false,\"rolled_back_delivered\":false,\"late_delivered\":false,\"late_accepted\":false}}", e),
+                            }
+                        }
+                        // settle_second <n>: a client-side sender on a link with rcv-settle-mode=second sends n unsettled
+                        //   messages; the peer (receiver) reports the outcome `accepted` for all of them in ONE non-settling
+                        //   disposition (first=0,last=n-1). The sender must answer with settling dispositions covering every one
+                        //   of the n deliveries, and each send must resolve as accepted.
+                        "settle_second" => {
+                            use fe2o3_amqp_types::definitions::{ReceiverSettleMode, Role};
+                            use fe2o3_amqp_types::messaging::{Accepted, DeliveryState};
+                            use fe2o3_amqp_types::performatives::Disposition;
+                            let n = arg.first().copied().unwrap_or(1).max(1) as u32;
+                            let mut seen = 0u32;
+                            let peer = tokio::spawn(sp::run(peer_io, sp::PeerCfg::default(), move |f: &Frame, _log: &[String]| {
+                                let mut act = sp::Act::default();
+                                if let FrameBody::Transfer { .. } = &f.body {
+                                    seen += 1;
+                                    if seen == n {
+                                        let d = Disposition { role: Role::Receiver, first: 0, last: Some(n - 1), settled: false, state: Some(DeliveryState::Accepted(Accepted {})), batchable: false };
+                                        act.replies.push(Frame::new(f.channel, FrameBody::Disposition(d)));
+                                    }
+                                }
+                                act
+                            }));
+                            let client = tokio::time::timeout(Duration::from_secs(8), async {
+                                let mut conn = fe2o3_amqp::Connection::builder().container_id("client").open_with_stream(client_io).await.map_err(|_| "open_failed".to_string())?;
+                                let mut session = fe2o3_amqp::Session::begin(&mut conn).await.map_err(|_| "begin_failed".to_string())?;
+                                let mut sender = fe2o3_amqp::Sender::builder().name("s-1").target("q1").receiver_settle_mode(ReceiverSettleMode::Second).attach(&mut session).await.map_err(|_| "attach_failed".to_string())?;
+                                let mut futs = Vec::new();
+                                for k in 0..n {
+                                    futs.push(sender.send_batchable(format!("m{}", k)).await.map_err(|_| "send_failed".to_string())?);
+                                }
+                                let mut accepted = 0;
+                                for fut in futs {
+                                    if let Ok(Ok(o)) = tokio::time::timeout(Duration::from_secs(2), fut).await {
+                                        if o.is_accepted() {
+                                            accepted += 1;
+                                        }
+                                    }
+                                }
+                                tokio::time::sleep(Duration::from_millis(300)).await;
+                                let _ = tokio::time::timeout(Duration::from_secs(1), sender.close()).await;
+                                let _ = tokio::time::timeout(Duration::from_secs(1), session.end()).await;
+                                let _ = tokio::time::timeout(Duration::from_secs(1), conn.close()).await;
+                                Ok::<_, String>(accepted)
+                            })
+                            .await
+                            .unwrap_or(Err("hang".to_string()));
+                            let log = tokio::time::timeout(Duration::from_secs(2), peer).await.ok().and_then(|r| r.ok()).unwrap_or_default();
+                            // which delivery ids were settled by the sender's dispositions
+                            let mut settled = vec![false; n as usize];
+                            for l in log.iter().filter(|l| l.starts_with("disposition:Sender:") && l.contains(":settledtrue:")) {
+                                let range = l.split(':').nth(2).unwrap_or("");
+                                let mut it = range.split('-');
+                                let first = it.next().and_then(|t| t.parse::<u32>().ok());
+                                let last = it.next().and_then(|t| t.trim_start_matches("Some(").trim_end_matches(')').parse::<u32>().ok()).or(first);
+                                if let (Some(a), Some(b)) = (first, last) {
+                                    for id in a..=b.min(n - 1) {
+                                        settled[id as usize] = true;
+                                    }
+                                }
+                            }
+                            let all = settled.iter().all(|x| *x);
+                            let (acc, c) = match &client { Ok(a) => (*a as i64, "ok".to_string()), Err(e) => (-1, e.clone()) };
+                            format!("{{\"client\":\"{}\",\"accepted\":{},\"n\":{},\"all_settled_by_sender\":{},\"log\":{}}}", c, acc, n, all, sp::json_list(&log))
                         }
                         _ => "{\"error\":\"unknown scenario\"}".to_string(),
                     }
